@@ -86,6 +86,40 @@ theorem no_lookahead_logs (log₁ log₂ : List Version) (h₁ : Ordered log₁)
   rw [r1, r2]
   simp only [specRead, hT]
 
+
+/-- **no look-ahead for first reads**: versions stamped later than `T` never change an as-of-`T` read with `what = 0` either -/
+theorem no_lookahead_first (log later : List Version) (h : Ordered (log ++ later)) (hl : log ≠ []) (T : Int)
+    (hT : ∀ v ∈ later, T < v.stamp) (st st' : Store)
+    (hst : history log = some st) (hst' : history (log ++ later) = some st') :
+    biRead st' (some T) 0 = biRead st (some T) 0 := by
+  have h0 : Ordered log :=
+    ⟨hl, fun v hv => h.wf v (List.mem_append_left _ hv), (List.pairwise_append.mp h.stamps).1⟩
+  obtain ⟨s1, e1, r1⟩ := read_first log h0 (some T)
+  obtain ⟨s2, e2, r2⟩ := read_first _ h (some T)
+  rw [hst] at e1; cases e1
+  rw [hst'] at e2; cases e2
+  rw [r1, r2]
+  have : (logRows later).filter (fun r => decide (r.stamp ≤ T)) = [] := by
+    rw [List.filter_eq_nil_iff]
+    intro r hr
+    simp only [logRows, List.mem_flatMap, Bi, List.mem_map] at hr
+    obtain ⟨v, hv, _, _, rfl⟩ := hr
+    have := hT v hv
+    simp only [decide_eq_true_eq]; omega
+  simp only [specFirst, logRows_append, List.filter_append, this, List.append_nil]
+
+/-- two logs that agree on what was published by `T` have the same first reads as of `T` -/
+theorem no_lookahead_first_logs (log₁ log₂ : List Version) (h₁ : Ordered log₁) (h₂ : Ordered log₂) (T : Int)
+    (hT : (logRows log₁).filter (fun r => decide (r.stamp ≤ T)) = (logRows log₂).filter (fun r => decide (r.stamp ≤ T)))
+    (st₁ st₂ : Store) (e₁ : history log₁ = some st₁) (e₂ : history log₂ = some st₂) :
+    biRead st₁ (some T) 0 = biRead st₂ (some T) 0 := by
+  obtain ⟨s1, e1, r1⟩ := read_first log₁ h₁ (some T)
+  obtain ⟨s2, e2, r2⟩ := read_first log₂ h₂ (some T)
+  rw [e₁] at e1; cases e1
+  rw [e₂] at e2; cases e2
+  rw [r1, r2]
+  simp only [specFirst, hT]
+
 /-- **idempotence**: merging (again) a version whose values are the values the store shows as of that version's
     stamp - NaN entries allowed, they never override - leaves every as-of read and every first read unchanged.
     This covers re-merging the version merged last, and every earlier version that no later version sharing
@@ -189,21 +223,6 @@ theorem store_rows_published (log : List Version) (h : Ordered log) (st : Store)
 
 
 /-! ### the clauses as they are written (review r5): first value published, re-merging a stored version -/
-
-/-- the publications visible as of `T` (`none`: all of them) -/
-def pubs (log : List Version) (asof : Option Int) : Store := (logRows log).filter (vis asof)
-
-theorem specFirstLiteral_eq (log : List Version) (asof : Option Int) :
-    specFirstLiteral log asof = (dates (pubs log asof)).map fun d => (d, (group d (pubs log asof)).head?.bind (·.val)) := by
-  cases asof with
-  | none => simp only [specFirstLiteral, pubs, filter_vis_none]
-  | some T => rfl
-
-theorem specFirst_eq_pubs (log : List Version) (asof : Option Int) :
-    specFirst log asof = (dates (pubs log asof)).map fun d => (d, firstVal (group d (pubs log asof))) := by
-  cases asof with
-  | none => simp only [specFirst, pubs, filter_vis_none]
-  | some T => rfl
 
 /-- **first read, exact**: `bi_read(what=0)` is the first value published per date (the clause as written) exactly when, for
     every date, the publications sharing the date's first stamp fold to the first of them. -/
@@ -313,42 +332,6 @@ theorem read_first_literal_fails :
   subst hd1
   revert hd6; decide
 
-/-- in a column strictly increasing in stamp, the rows stamped no later than a member `r` end with `r` -/
-theorem filter_le_of_mem (c : Store) (hs : SortedLt c) (r : Row) (hr : r ∈ c) :
-    ∃ A, c.filter (fun q => decide (q.stamp ≤ r.stamp)) = A ++ [r] := by
-  obtain ⟨A, B, rfl⟩ := List.append_of_mem hr
-  refine ⟨A, ?_⟩
-  obtain ⟨_, hB, hAB⟩ := List.pairwise_append.mp hs
-  have hA' : A.filter (fun q => decide (q.stamp ≤ r.stamp)) = A := by
-    rw [List.filter_eq_self]; intro a ha
-    have := hAB a ha r (by simp)
-    simp only [decide_eq_true_eq]; omega
-  have hB' : B.filter (fun q => decide (q.stamp ≤ r.stamp)) = [] := by
-    rw [List.filter_eq_nil_iff]; intro b hb
-    have := List.rel_of_pairwise_cons hB hb
-    simp only [decide_eq_true_eq]; omega
-  simp [List.filter_append, hA', hB']
-
-/-- a version whose rows are rows of the store shows, as of its stamp, exactly its own values -/
-theorem rows_in_store_visible (st : Store) (hg : Good st) (w : Version)
-    (hin : ∀ p ∈ w.ts, (⟨p.1, w.stamp, p.2⟩ : Row) ∈ st) :
-    ∀ p ∈ w.ts, ∃ y, (p.1, y) ∈ biRead st (some w.stamp) (-1) ∧ (p.2 = Option.none ∨ p.2 = y) := by
-  intro p hp
-  have hr := hin p hp
-  have hgr : (⟨p.1, w.stamp, p.2⟩ : Row) ∈ group p.1 st := mem_group.mpr ⟨hr, rfl⟩
-  obtain ⟨A, hA⟩ := filter_le_of_mem _ (hg p.1).1 _ hgr
-  refine ⟨lastVal ((group p.1 st).filter (vis (some w.stamp))), ?_, ?_⟩
-  · rw [biRead_last st hg]
-    simp only [specRows, List.mem_map, Prod.mk.injEq]
-    refine ⟨p.1, ?_, rfl, rfl⟩
-    rw [mem_dates]
-    exact ⟨⟨p.1, w.stamp, p.2⟩, List.mem_filter.mpr ⟨hr, by simp [vis]⟩, rfl⟩
-  · have : (group p.1 st).filter (vis (some w.stamp)) = A ++ [⟨p.1, w.stamp, p.2⟩] := hA
-    rw [this, lastVal_snoc]
-    cases hv : p.2 with
-    | none => exact Or.inl rfl
-    | some x => right; simp
-
 /-- **idempotence, as written**: merging a version that is already in the store - every row of it (date, stamp, value) is a
     row of the store - leaves every as-of read and every first read unchanged. -/
 theorem merge_idem_rows (log : List Version) (h : Ordered log) (st : Store) (hst : history log = some st) (w : Version)
@@ -404,151 +387,6 @@ theorem remerge_overridden_changes_read :
 
 /-! ### what an as-of read returns, said without the fold (review r5): the value of the version merged last among those stamped
     `≤ T` that publish a non-NaN value for the date -/
-
-theorem foldl_or_eq (B : Store) (a : Option Int) : B.foldl (fun acc r => r.val.or acc) a = (lastVal B).or a := by
-  induction B generalizing a with
-  | nil => simp [lastVal]
-  | cons r B ih =>
-    simp only [List.foldl_cons, lastVal]
-    rw [ih, ih (r.val.or Option.none), Option.or_none, Option.or_assoc]
-
-theorem lastVal_append (A B : Store) : lastVal (A ++ B) = (lastVal B).or (lastVal A) := by
-  simp only [lastVal, List.foldl_append]; exact foldl_or_eq B _
-
-theorem lastVal_cons (r : Row) (B : Store) : lastVal (r :: B) = (lastVal B).or r.val := by
-  have := lastVal_append [r] B
-  simpa [lastVal] using this
-
-theorem lastVal_eq_none_iff (rows : Store) : lastVal rows = Option.none ↔ ∀ r ∈ rows, r.val = Option.none := by
-  induction rows with
-  | nil => simp [lastVal]
-  | cons r rows ih =>
-    rw [lastVal_cons, Option.or_eq_none_iff, ih]
-    simp [and_comm]
-
-theorem lastVal_some_mem {rows : Store} {x : Int} (h : lastVal rows = some x) : ∃ r ∈ rows, r.val = some x := by
-  induction rows with
-  | nil => simp [lastVal] at h
-  | cons r rows ih =>
-    rw [lastVal_cons] at h
-    cases hv : lastVal rows with
-    | some y =>
-      rw [hv] at h; simp at h; subst h
-      obtain ⟨q, hq, hqv⟩ := ih hv
-      exact ⟨q, by simp [hq], hqv⟩
-    | none =>
-      rw [hv] at h; simp at h
-      exact ⟨r, by simp, h⟩
-
-/-- a proper series has one row per date -/
-theorem group_Bi_single (ts : TS) (s : Int) (hs : ts.Sorted) (p : Int × Option Int) (hp : p ∈ ts) :
-    group p.1 (Bi ts s) = [⟨p.1, s, p.2⟩] := by
-  have hgd := (good_Bi ts s hs p.1).1
-  have hm : (⟨p.1, s, p.2⟩ : Row) ∈ group p.1 (Bi ts s) :=
-    mem_group.mpr ⟨by simp only [Bi, List.mem_map]; exact ⟨p, hp, rfl⟩, rfl⟩
-  match hgrp : group p.1 (Bi ts s), hgd, hm with
-  | [], _, hm => simp at hm
-  | [a], _, hm => simp only [List.mem_singleton] at hm; rw [hm]
-  | a :: b :: rest, hgd, _ =>
-    exfalso
-    have hab := List.rel_of_pairwise_cons hgd (List.mem_cons_self (a := b) (l := rest))
-    have ha : a ∈ group p.1 (Bi ts s) := by rw [hgrp]; simp
-    have hb : b ∈ group p.1 (Bi ts s) := by rw [hgrp]; simp
-    have e1 : a.stamp = s := by
-      have := (mem_group.mp ha).1; simp only [Bi, List.mem_map] at this; obtain ⟨_, _, rfl⟩ := this; rfl
-    have e2 : b.stamp = s := by
-      have := (mem_group.mp hb).1; simp only [Bi, List.mem_map] at this; obtain ⟨_, _, rfl⟩ := this; rfl
-    omega
-
-/-- the rows of date `d` that the versions of `log` stamped `≤ T` publish, in merge order -/
-def col (d T : Int) (log : List Version) : Store := group d ((logRows log).filter (vis (some T)))
-
-theorem col_cons (d T : Int) (v : Version) (rest : List Version) :
-    col d T (v :: rest) = (if v.stamp ≤ T then group d (Bi v.ts v.stamp) else []) ++ col d T rest := by
-  have e : logRows (v :: rest) = Bi v.ts v.stamp ++ logRows rest := by simp [logRows]
-  unfold col
-  rw [e, List.filter_append, group_append]
-  congr 1
-  split
-  · rename_i hle
-    congr 1
-    rw [List.filter_eq_self]
-    intro r hr
-    simp only [Bi, List.mem_map] at hr
-    obtain ⟨_, _, rfl⟩ := hr
-    simp [vis, hle]
-  · rename_i hle
-    have : (Bi v.ts v.stamp).filter (vis (some T)) = [] := by
-      rw [List.filter_eq_nil_iff]
-      intro r hr
-      simp only [Bi, List.mem_map] at hr
-      obtain ⟨_, _, rfl⟩ := hr
-      simp [vis, hle]
-    rw [this]; rfl
-
-theorem mem_col {d T : Int} {log : List Version} {r : Row} :
-    r ∈ col d T log ↔ ∃ v ∈ log, v.stamp ≤ T ∧ r.stamp = v.stamp ∧ r.date = d ∧ (d, r.val) ∈ v.ts := by
-  simp only [col, mem_group, List.mem_filter, logRows, List.mem_flatMap, Bi, List.mem_map, vis, decide_eq_true_eq]
-  constructor
-  · rintro ⟨⟨⟨v, hv, p, hp, rfl⟩, hT⟩, rfl⟩
-    exact ⟨v, hv, hT, rfl, rfl, hp⟩
-  · rintro ⟨v, hv, hT, hs, hd, hp⟩
-    refine ⟨⟨⟨v, hv, (d, r.val), hp, ?_⟩, by omega⟩, hd⟩
-    cases r; simp_all
-
-/-- the fold of a date's column is `some x` exactly if some version stamped `≤ T` publishes `x` for the date and no version
-    merged after it and stamped `≤ T` publishes a non-NaN value for that date -/
-theorem lastVal_col_some (d T : Int) (x : Int) (log : List Version) (hwf : ∀ v ∈ log, v.ts.Sorted) :
-    lastVal (col d T log) = some x ↔
-      ∃ before v after, log = before ++ v :: after ∧ v.stamp ≤ T ∧ (d, some x) ∈ v.ts ∧
-        ∀ u ∈ after, u.stamp ≤ T → ∀ y, (d, some y) ∉ u.ts := by
-  induction log with
-  | nil => simp [col, logRows, group, lastVal]
-  | cons v rest ih =>
-    have ih := ih (fun u hu => hwf u (by simp [hu]))
-    rw [col_cons, lastVal_append]
-    constructor
-    · intro h
-      cases hR : lastVal (col d T rest) with
-      | some z =>
-        rw [hR] at h; simp at h; subst h
-        obtain ⟨before, u, after, rfl, h1, h2, h3⟩ := ih.mp hR
-        exact ⟨v :: before, u, after, by simp, h1, h2, h3⟩
-      | none =>
-        rw [hR] at h; simp at h
-        obtain ⟨r, hr, hrv⟩ := lastVal_some_mem h
-        split at hr
-        · rename_i hle
-          have h1 := (mem_group.mp hr)
-          have h2 := h1.1
-          simp only [Bi, List.mem_map] at h2
-          obtain ⟨p, hp, rfl⟩ := h2
-          refine ⟨[], v, rest, rfl, hle, ?_, ?_⟩
-          · have : p = (d, some x) := by
-              cases p; simp at h1 hrv; simp [h1.2, hrv]
-            rw [← this]; exact hp
-          · intro u hu huT y hy
-            have := (lastVal_eq_none_iff _).mp hR ⟨d, u.stamp, some y⟩ (mem_col.mpr ⟨u, hu, huT, rfl, rfl, hy⟩)
-            simp at this
-        · simp at hr
-    · rintro ⟨before, u, after, he, h1, h2, h3⟩
-      cases before with
-      | nil =>
-        simp only [List.nil_append, List.cons.injEq] at he
-        obtain ⟨rfl, rfl⟩ := he
-        have hnone : lastVal (col d T rest) = Option.none := by
-          rw [lastVal_eq_none_iff]
-          intro r hr
-          obtain ⟨w, hw, hwT, _, _, hp⟩ := mem_col.mp hr
-          cases hv : r.val with
-          | none => rfl
-          | some y => rw [hv] at hp; exact absurd hp (h3 w hw hwT y)
-        rw [hnone, if_pos h1, group_Bi_single v.ts v.stamp (hwf v (by simp)) (d, some x) h2]
-        simp [lastVal]
-      | cons b before =>
-        simp only [List.cons_append, List.cons.injEq] at he
-        obtain ⟨rfl, rfl⟩ := he
-        rw [ih.mpr ⟨before, u, after, rfl, h1, h2, h3⟩]; simp
 
 /-- **as-of value, declaratively**: the as-of-`T` read shows `x` for date `d` iff some version stamped `≤ T` publishes `x` for
     `d` and no version merged after it and stamped `≤ T` publishes a non-NaN value for `d` - "the latest value published with
@@ -621,6 +459,71 @@ theorem read_nan (log : List Version) (h : Ordered log) (T : Int) (st : Store) (
     | none => rfl
     | some y => rw [hv] at hp; exact absurd hp (hall w hw hwT y)
 
+/-! ### histories as the code runs them: `bi_merge` of two empty frames raises (review r5: `history` is total) -/
+
+/-- **when a history returns**: `historyE` is an error exactly for a history whose first two versions are both empty (the second
+    `bi_merge` call concatenates no group); every other history returns the store `history` describes. -/
+theorem historyE_eq (log : List Version) :
+    historyE log = if 2 ≤ log.length ∧ ∀ v ∈ log.take 2, v.ts = [] then .error .value else .ok (history log) := by
+  match log with
+  | [] => rfl
+  | [v] => simp [historyE, mergeStepE, biMergeE, history, biMerge]
+  | v1 :: v2 :: rest =>
+    by_cases hboth : v1.ts = [] ∧ v2.ts = []
+    · have hcond : 2 ≤ (v1 :: v2 :: rest).length ∧ ∀ v ∈ (v1 :: v2 :: rest).take 2, v.ts = [] := by
+        refine ⟨by simp, ?_⟩
+        intro v hv
+        simp only [List.take_succ_cons, List.take_zero, List.mem_cons, List.not_mem_nil, or_false] at hv
+        rcases hv with rfl | rfl
+        · exact hboth.1
+        · exact hboth.2
+      rw [if_pos hcond]
+      have e : mergeStepE (mergeStepE (.ok Option.none) v1) v2 = .error .value := by
+        simp [mergeStepE, biMergeE, Bi, hboth.1, hboth.2]
+      have herr : ∀ l : List Version, l.foldl mergeStepE (.error .value) = .error .value := by
+        intro l; induction l with
+        | nil => rfl
+        | cons a l ih => simpa [List.foldl_cons, mergeStepE] using ih
+      simp only [historyE, List.foldl_cons, e, herr]
+    · have hcond : ¬ (2 ≤ (v1 :: v2 :: rest).length ∧ ∀ v ∈ (v1 :: v2 :: rest).take 2, v.ts = []) := by
+        rintro ⟨_, hall⟩
+        exact hboth ⟨hall v1 (by simp), hall v2 (by simp)⟩
+      rw [if_neg hcond]
+      have hne : Bi v1.ts v1.stamp ++ Bi v2.ts v2.stamp ≠ [] := by
+        intro he
+        simp only [List.append_eq_nil_iff, Bi, List.map_eq_nil_iff] at he
+        exact hboth he
+      have e : mergeStepE (mergeStepE (.ok Option.none) v1) v2 =
+          .ok (some (mergeFrames [Bi v1.ts v1.stamp, Bi v2.ts v2.stamp])) := by
+        simp only [mergeStepE, biMergeE, biMerge]
+        rw [if_neg (by simpa [List.isEmpty_iff] using hne)]
+      have := (historyE_foldl_ok rest _ (mergeFrames_ne_nil _ _ hne)).1
+      simp only [historyE, history_eq, List.foldl_cons, e, this]
+      rfl
+
+/-- **refinement for the histories that return**: for every `Ordered` log whose first two versions are not both empty the code's
+    history returns a store, and that store answers as-of reads and first reads as the publication log does. -/
+theorem read_spec_returns (log : List Version) (h : Ordered log) (hne : log.length < 2 ∨ ∃ v ∈ log.take 2, v.ts ≠ [])
+    (T : Option Int) :
+    ∃ st, historyE log = .ok (some st) ∧ biRead st T (-1) = specRead log T ∧ biRead st T 0 = specFirst log T := by
+  obtain ⟨st, hst, hr⟩ := read_spec log h T
+  obtain ⟨st', hst', hr'⟩ := read_first log h T
+  rw [hst] at hst'; cases hst'
+  refine ⟨st, ?_, hr, hr'⟩
+  rw [historyE_eq, if_neg, hst]
+  rintro ⟨h2, hall⟩
+  rcases hne with hlt | ⟨v, hv, hvne⟩
+  · omega
+  · exact hvne (hall v hv)
+
+/-- ... and the other `Ordered` histories raise: the theorems about `history` do not speak about them -/
+theorem historyE_raises (log : List Version) (h2 : 2 ≤ log.length) (hall : ∀ v ∈ log.take 2, v.ts = []) :
+    historyE log = .error .value := by
+  rw [historyE_eq, if_pos ⟨h2, hall⟩]
+
+example : Ordered [⟨10, []⟩, ⟨11, []⟩] ∧ historyE [⟨10, []⟩, ⟨11, []⟩] = .error .value :=
+  ⟨⟨by simp, by decide, by decide⟩, historyE_raises _ (by simp) (by simp)⟩
+
 /-! `lastVal` (the fold used by `specRead`) is determined by three equations: nothing published gives NaN,
     a later non-NaN publication overrides, a later NaN publication changes nothing. -/
 
@@ -654,6 +557,17 @@ def demo : List Version :=
     (biRead st (some 10) (-1)).any fun q => q.1 == p.1 && (p.2 == Option.none || p.2 == q.2)) == some false
 #guard (history demo).map (fun st => biRead (biMerge (some st) (Bi demo[0]!.ts 10)) (some 10) (-1)) ==
     some [(1, some 5), (2, none), (3, some 1)]
+
+-- no look-ahead is a statement about `what = -1` (`no_lookahead`) and `what = 0` (`no_lookahead_first`) only.  For the other
+-- selectors it is false of the store design: a revert merged under the stamp of the version it reverts (`6@12` then `5@12` after
+-- `5@11`) leaves the row (12, 5) that repeats its predecessor; the NEXT merge - whatever its stamp - drops it (`_drop_repeats`
+-- line 148-152), so "the one before last as of 12" (`what = -2`) changes from 5 to 3 when a version stamped 14 arrives.  The
+-- statement of C17 names `bi_read(store, asof=T)` and `what=0` only; the implementation agrees with the model on these lines.
+def revertDemo : List Version := [⟨10, [(1, some 3)]⟩, ⟨11, [(1, some 5)]⟩, ⟨12, [(1, some 6)]⟩, ⟨12, [(1, some 5)]⟩]
+#guard (history revertDemo).map (fun st => biRead st (some 13) (-2)) == some [(1, some 5)]
+#guard (history (revertDemo ++ [⟨14, [(1, some 9)]⟩])).map (fun st => biRead st (some 13) (-2)) == some [(1, some 3)]
+#guard (history (revertDemo ++ [⟨14, [(1, some 9)]⟩])).map (fun st => (biRead st (some 13) (-1), biRead st (some 13) 0)) ==
+    (history revertDemo).map (fun st => (biRead st (some 13) (-1), biRead st (some 13) 0))
 
 -- the same history handed over in batches (one call with two versions, an empty call, one call with two more)
 #guard (historyL [[demo[0]!, demo[1]!], [], [demo[2]!, demo[3]!]]).map (fun st => biRead st Option.none (-1)) ==
